@@ -182,8 +182,14 @@ def specOf {K} (P : Prec K) (exp : Option (List Int)) : POp → Option String
     else if inEnvelope P a b && a.size + b.size - 1 ≤ n then
       exp.map (fun e => s!"{showIVec e} fresh=same oracle=exact") else none
 
-/-- The view of a result through the property's eyes. -/
-def viewOf {K} (P : Prec K) (exp : Option (List Int)) (op : POp) (used fresh : POut K) : String :=
+/-- The view of a result through the property's eyes.  For the calls whose VALUE the property fixes
+    (`inDom`: multiply, multiply_into, forward·pointwise·inverse inside the envelope) the value part of the
+    view is the exact value (`exp`): the theorems are about exact arithmetic and about history independence,
+    the binary64/binary32 instance executed here has the same rounding errors as the Rust code (that is what
+    the raw comparison checks), so a rounding failure inside the envelope must show up as
+    "implementation ≠ specification", not as "model ≠ specification".  The `fresh=` part is always computed
+    by actually running the model on a brand-new object. -/
+def viewOf {K} (P : Prec K) (exp : Option (List Int)) (inDom : Bool) (op : POp) (used fresh : POut K) : String :=
   let rawU := showOut P used
   let same := if rawU == showOut P fresh then "fresh=same" else "fresh=diff"
   match op, used with
@@ -195,10 +201,11 @@ def viewOf {K} (P : Prec K) (exp : Option (List Int)) (op : POp) (used fresh : P
   | .inv _ _, _ => same
   | .ii _ _ _, _ => same
   | _, .ivec xs =>
-    let orc := match exp with
-      | some e => if e == xs then "oracle=exact" else "oracle=wrong"
-      | none => "oracle=none"
-    s!"{rawU} {same} {orc}"
+    match exp with
+    | some e =>
+      if inDom then s!"{showIVec e} {same} oracle=exact"
+      else s!"{rawU} {same} {if e == xs then "oracle=exact" else "oracle=wrong"}"
+    | none => s!"{rawU} {same} oracle=none"
   | _, _ => rawU
 
 def runCase {K} (P : Prec K) (ops : List POp) : String :=
@@ -210,9 +217,9 @@ def runCase {K} (P : Prec K) (ops : List POp) : String :=
     let fresh := (pcall P (new P.A) last).2
     let exp := expected last
     let spec := match used with
-      | .invalid => "any"
-      | _ => (specOf P exp last).getD "any"
-    answer3 (showOut P used) (viewOf P exp last used fresh) spec
+      | .invalid => none
+      | _ => specOf P exp last
+    answer3 (showOut P used) (viewOf P exp spec.isSome last used fresh) (spec.getD "any")
 
 def handle (line : String) : String :=
   match splitOps line with
